@@ -13,18 +13,18 @@ Undirected, exhaustive over hypergraphs (hyperedges = non-empty subsets of 0..n-
   U-A  full cross product n_steps in {0,1,5,50} x detailed in {True,False} x filter in {none, size=k for every size k
        present, order=k-1 for the smallest size present, size = largest size + 1 (no such hyperedge)}:
          quick:    all hypergraphs on <= 3 nodes with 2..4 hyperedges and on <= 4 nodes with 2 hyperedges, S = 30;
-         thorough: the same with S = 300, plus all hypergraphs on <= 4 nodes with 3 hyperedges (S = 100) and with 4
-                   hyperedges (S = 30).
+         thorough: the same with S = 300, plus all hypergraphs on <= 4 nodes with 3 hyperedges (S = 50) and with 4
+                   hyperedges (S = 16).
   U-B  every hypergraph on <= 5 nodes with 2..4 hyperedges (36 425 of them):
          quick:    one combination each, rotating through all (n_steps, detailed, label, filter kind), 2 seeds;
-         thorough: all 8 (n_steps, detailed) x {no filter, one rotating filter}, 3 seeds.
+         thorough: all 8 (n_steps, detailed) x {no filter, one rotating filter}, 3 seeds (2 with 4 hyperedges).
 Undirected, sampled:
-  U-C  random hypergraphs on 3..8 nodes with 2..10 hyperedges of size 1..6 (labels 0..n-1 / scattered ints / strings,
+  U-C  60 random hypergraphs on 3..8 nodes with 2..10 hyperedges of size 1..6 (labels 0..n-1 / scattered ints / strings,
        weighted or not, isolated nodes): all (n_steps, detailed) x {none, two sizes present}, S = 30 / 300.
 Directed (source/target disjoint, non-empty), exhaustive over hypergraphs on node set 0..n-1:
-  D-A  n <= 4 (50 admissible hyperedges): 2 hyperedges S = 30 / 300; 3 hyperedges S = 2 / 60; 4 hyperedges S = 3
+  D-A  n <= 4 (50 admissible hyperedges): 2 hyperedges S = 30 / 300; 3 hyperedges S = 2 / 30; 4 hyperedges S = 2
        (thorough only);   D-B  n = 5, 2 hyperedges, S = 30 (thorough only).
-  D-C  random directed hypergraphs on 2..8 nodes with 2..10 hyperedges of total size 2..6, S = 30 / 300.
+  D-C  200 / 600 random directed hypergraphs on 2..8 nodes with 2..10 hyperedges of total size 2..6, S = 30 / 300.
 
 Oracle
 ------
@@ -381,7 +381,7 @@ def plan(ctx):
     seenA = set()
     groupsA = [(s3, (2, 3, 4), S_A), (s4, (2,), S_A)]
     if not q:
-        groupsA += [(s4, (3,), 100), (s4, (4,), 30)]
+        groupsA += [(s4, (3,), 50), (s4, (4,), 16)]
     for subs, ks, S in groupsA:
         for k in ks:
             for combo in itertools.combinations(subs, k):
@@ -393,7 +393,7 @@ def plan(ctx):
                  f"hyperedges x n_steps {{0,1,5,50}} x detailed x every filter (none, each size present, one order, one "
                  f"absent size), {S_A} seeds each (labels alternate)")
     if not q:
-        parts.append("configuration_model: all hypergraphs on <= 4 nodes with 3 (100 seeds) and 4 (30 seeds) hyperedges, "
+        parts.append("configuration_model: all hypergraphs on <= 4 nodes with 3 (50 seeds) and 4 (16 seeds) hyperedges, "
                      "same cross product")
     # ---- U-B
     s5 = subsets(5)
@@ -408,24 +408,24 @@ def plan(ctx):
                 fk = ("size-min", "size-max", "order-min", "order-max", "absent")[i % 5]
                 combos = [(ns, det, f, i % 2) for ns in NSTEPS for det in (True, False)
                           for f in (None, _pick_filter(combo, fk))]
-                S = 3
+                S = 3 if k < 4 else 2
             jobs.append(("u", dict(edges=list(combo), combos=combos, S=S)))
             i += 1
     parts.append("configuration_model: every hypergraph on <= 5 nodes with 2..4 hyperedges (36425), " +
                  ("one rotating (n_steps, detailed, label, filter) combination, 2 seeds" if q else
-                  "all (n_steps, detailed) x {no filter, one rotating filter}, 3 seeds"))
+                  "all (n_steps, detailed) x {no filter, one rotating filter}, 3 seeds (2 for 4 hyperedges)"))
     # ---- U-C
-    for idx in range(60 if q else 120):
+    for idx in range(60):
         job = random_u(ctx.seed, idx)
         job["S"] = S_A
         jobs.append(("u", job))
     # ---- D-A / D-B
     d4 = admissible_directed(4)
-    for k, S in ((2, S_A), (3, 2 if q else 60)) + (() if q else ((4, 3),)):
+    for k, S in ((2, S_A), (3, 2 if q else 30)) + (() if q else ((4, 2),)):
         for combo in itertools.combinations(d4, k):
             jobs.append(("d", dict(edges=list(combo), nodes=[0, 1, 2, 3], S=S)))
     parts.append("directed_configuration_model: all directed hypergraphs on node set 0..3 with 2 hyperedges "
-                 f"({S_A} seeds), 3 hyperedges ({2 if q else 60} seeds)" + ("" if q else ", 4 hyperedges (3 seeds)"))
+                 f"({S_A} seeds), 3 hyperedges ({2 if q else 30} seeds)" + ("" if q else ", 4 hyperedges (2 seeds)"))
     if not q:
         for combo in itertools.combinations(admissible_directed(5), 2):
             jobs.append(("d", dict(edges=list(combo), nodes=[0, 1, 2, 3, 4], S=30)))
@@ -440,7 +440,7 @@ def plan(ctx):
 
 def _cost(kind, job):
     if kind == "d":
-        return job["S"] * (2 + len(job["edges"]))
+        return job["S"] * (14 + 3 * len(job["edges"]))
     c = 0
     for ns, det, f, _ in job["combos"]:
         c += (job["S"] if ns else 2) * (3 + 2.4 * ns)
